@@ -72,6 +72,10 @@ impl Pool {
             enc(EncapsulationScheme::X25519, "X25519", 3),
             enc(EncapsulationScheme::X25519, "X25519", 4),
         ];
+        // two ML-KEM levels are always present: a key of one level meeting a message sealed to another
+        // level is a case of its own (it used to panic in the key decapsulation)
+        e.push(enc(EncapsulationScheme::MLKEM512, "ML-KEM-512", 5));
+        e.push(enc(EncapsulationScheme::MLKEM768, "ML-KEM-768", 7));
         if full {
             s.push(sig(SignatureScheme::MLDSA44, "ML-DSA-44", 7, false));
             s.push(sig(SignatureScheme::MLDSA44, "ML-DSA-44", 8, false));
@@ -86,9 +90,7 @@ impl Pool {
             s.push(sig(SignatureScheme::SshEcdsaP384, "SSH-ECDSA-P384", 17, true));
             s.push(sig(SignatureScheme::SshEcdsaP384, "SSH-ECDSA-P384", 18, true));
             s.push(sig(SignatureScheme::SshDsa, "SSH-DSA", 19, true));
-            e.push(enc(EncapsulationScheme::MLKEM512, "ML-KEM-512", 5));
             e.push(enc(EncapsulationScheme::MLKEM512, "ML-KEM-512", 6));
-            e.push(enc(EncapsulationScheme::MLKEM768, "ML-KEM-768", 7));
             e.push(enc(EncapsulationScheme::MLKEM768, "ML-KEM-768", 8));
             e.push(enc(EncapsulationScheme::MLKEM1024, "ML-KEM-1024", 9));
             e.push(enc(EncapsulationScheme::MLKEM1024, "ML-KEM-1024", 10));
